@@ -14,7 +14,9 @@ THEOREMS_BY_PROP = {
             "DepLogic.C01.reach_canon", "DepLogic.C01.main", "DepLogic.C01.main_pep440"],
     "C05": ["DepLogic.C05.results_canonical", "DepLogic.C05.union_no_universal", "DepLogic.C05.isEmpty_sound",
             "DepLogic.C05.isAny_sound", "DepLogic.C05.isEmpty_exact", "DepLogic.C05.isAny_exact",
-            "DepLogic.C01.reach_canon"],
+            "DepLogic.C01.reach_canon", "DepLogic.C05.eq_exact", "DepLogic.C05.eq_sound", "DepLogic.C05.isEmpty_exact_cuts",
+            "DepLogic.C05.isAny_exact_cuts", "DepLogic.C05.cut_point", "DepLogic.Spec.canon_unique",
+            "DepLogic.Spec.map_and", "DepLogic.Spec.map_or", "DepLogic.Spec.map_invert"],
 }
 THEOREMS = THEOREMS_BY_PROP["C01"]
 
